@@ -298,6 +298,28 @@ def r2_4(ctx):
         pos = kwarg(chop, "position") or (chop.args[2] if len(chop.args) > 2 else None)
         ctx.check(len(chop.args) >= 2 and norm(chop.args[0]) == "word" and norm(chop.args[1]) == "width" and pos is not None and norm(pos) == "line_position", f.fq, short(chop), f"{m.relpath}:{site.lineno}",
                   "the word is chopped to the width, continuing at the current line position", "chop_cells is not called as chop_cells(word, width, position=line_position)")
+    # after a fold the running position is the cell width of the WHOLE last piece (its trailing whitespace is on the line too)
+    n_pos = 0
+    for site, chop in sites:
+        host = f
+        if site is not chop and isinstance(site.func, ast.Name) and site.func.id in m.functions:
+            host = m.functions[site.func.id]
+        hal = alias_map(host.node)
+        # names bound to pieces of the chop result: loop targets over it / star-unpack targets
+        pieces = set()
+        for x in walk_local(host.node):
+            if isinstance(x, ast.For) and any(isinstance(c, ast.Call) and call_name(c) == "chop_cells" for c in ast.walk(x.iter)):
+                pieces |= {t.id for t in ast.walk(x.target) if isinstance(t, ast.Name)}
+            if isinstance(x, ast.Assign) and isinstance(x.value, ast.Call) and call_name(x.value) == "chop_cells":
+                pieces |= {t.id for tt in x.targets for t in ast.walk(tt) if isinstance(t, ast.Name)}
+        for x in walk_local(host.node):
+            if isinstance(x, ast.Assign) and len(x.targets) == 1 and norm(x.targets[0]) == "line_position" and any(isinstance(nm, ast.Name) and nm.id in pieces for nm in ast.walk(x.value)):
+                n_pos += 1
+                v = x.value
+                ok = isinstance(v, ast.Call) and norm(expand_alias(v.func, hal)) == "cell_len" and len(v.args) == 1 and isinstance(v.args[0], ast.Name) and v.args[0].id in pieces
+                ctx.check(ok, host.fq, short(x), f"{m.relpath}:{x.lineno}", "after folding, the line position is the cell width of the whole last piece",
+                          f"`{short(x)}`: after a folded word the running line position is not cell_len of the whole last piece (e.g. its trailing whitespace is stripped first): the next word is placed on a line it does not fit, and the final truncate drops its last characters")
+    ctx.floor(n_pos, 1, "line-position updates after a fold")
     # words(): consecutive matches, each anchored where the previous one ended
     from ..astutil import inline, single_defs
     w = ctx.repo.fn("_wrap:words")
